@@ -38,6 +38,8 @@ fn gens(n: usize, m: usize, o: usize, k: usize, tier: Tier) -> (TreeGen, TreeGen
             Aff::new(vec![vec![1.0, 2.0], vec![0.0, 1.0]], vec![0.0, 0.0]),
             // pure translation by an offset whose entries cancel in the sum
             Aff::new(vec![vec![1.0, 0.0], vec![0.0, 1.0]], vec![0.5, -0.5]),
+            // entries of very different magnitude in one matrix (a grafted row then mixes 1 and 2^-60)
+            Aff::new(vec![vec![1.0, 0.0], vec![0.0, 2f64.powi(-60)]], vec![0.0, 0.0]),
         ],
     };
     let preds_m: Vec<Aff> = match (m, k) {
@@ -96,8 +98,18 @@ pub fn cases(tier: Tier) -> Vec<Case> {
                 }
             }
             if k == 2 {
+                // maps that are within 2.2e-16 of the identity without being it (m = o only)
+                // (scalings by 1 + 2^-52 and 1 - 2^-53: applied to the powers of two of the alphabet they stay exact in
+                // f64; a shift by 2^-60 would be rounded away by the f64 arithmetic of any implementation)
+                let near_id: Vec<Aff> = if m == o && m == 1 {
+                    vec![Aff::row1(&[1.0 + f64::EPSILON], 0.0), Aff::row1(&[1.0 - f64::EPSILON / 2.0], 0.0), Aff::row1(&[1.0], 0.0)]
+                } else if m == o {
+                    vec![Aff::new(vec![vec![1.0 + f64::EPSILON, 0.0], vec![0.0, 1.0]], vec![0.0, 0.0]), Aff::new(vec![vec![1.0, 0.0], vec![0.0, 1.0 - f64::EPSILON / 2.0]], vec![0.0, 0.0]), Aff::identity(2)]
+                } else {
+                    vec![]
+                };
                 for f in fs.iter() {
-                    for g in gg.terms.iter() {
+                    for g in gg.terms.iter().chain(near_id.iter()) {
                         out.push(Case::Apply { f: f.clone(), a: g.clone() });
                     }
                 }
@@ -192,6 +204,11 @@ fn check_compose<const K: usize>(f: &TSpec, g: &TSpec, layout: u8, apply: Option
     let mut conf = 0u64;
     let o = refine(n, &imp, &pipe, &Config::default(), &mut out, &mut |face, _, _| {
         for (t, s) in [(&h, &sh), (&ft, &sf)] {
+            // trees that hold numbers like 2^-60 next to ordinary ones are not evaluated exactly in f64 (0.5 + 2^-60
+            // rounds to 0.5), so the real evaluator is not bound to the snapshot routing there
+            if !s.is_small_dyadic() {
+                continue;
+            }
             let (n, e) = conform_face(t, s, face, true);
             conf += n;
             if let Some(e) = e {
